@@ -194,7 +194,8 @@ func generateOutput(nodeSet [][]*Node, query parser.Query) [][]interface{} {
 				}
 				response, err := evaluateExpression(nodeSet, outputFormat.SelectEntity, query)
 				if err != nil {
-					log.Fatal(err)
+					// evaluateExpression has reported the error; keep the row aligned with the SELECT list
+					response = ""
 				}
 				result = append(result, response)
 			}
